@@ -602,7 +602,7 @@ pub fn digest(seed: u64, n: u64, workers: usize) -> Vec<u64> {
 pub fn run(opts: &Opts) -> i32 {
     let t0 = now();
     let thorough = opts.tier == Tier::Thorough;
-    let n = if opts.budget > 0 { opts.budget } else if thorough { 4_000_000 } else { 40_000 };
+    let n = if opts.budget > 0 { opts.budget } else if thorough { 6_000_000 } else { 160_000 };
     let cap = if thorough { 256 } else { 64 };
     let seed = opts.seed;
     let (results, viol) = run_batch(n, opts.workers, move |i| job(seed, i, cap));
